@@ -31,11 +31,18 @@ Implementation entry points driven (real code from $VERIF_REPO/src):
       source's positions in source order / in another order / of a rectangular part of the tile grid
       (declared TotalPixelMatrixRows / Columns, get_total_pixel_matrix) -> hd.Image.from_dataset / hd.imread
       (eager, lazy) -> get_volume_geometry, get_volume(...), per-frame PlanePositionSequence + get_frame,
+  HISTORIES: several requests one after the other to ONE opened object (*_seq kinds) - get_volume_geometry(),
+      get_volume(), get_volume(range of slices / region), in any order, the first request being a range of slices
+      / a region / the geometry / the whole volume; allow_missing_positions on / off and explicit rtol / atol per
+      request, volumes assembled per segment, the object deep-copied / pickled / copied by from_dataset between
+      requests; the object as constructed, read from a file eagerly or lazily, through the Segmentation or the
+      Image interface; stacked segmentations of volumes and of source stacks, plain CT images, parametric maps,
+      tiled segmentations / slide images,
   hd.seg.create_segmentation_pyramid(...) from one source + down-sampling factors, and (downsample_factors=None)
       from several source images of one pyramid with one or with as many masks, and from one source image
       with several masks,
   Image._standardize_slice_indices, Image._standardize_row_column_indices.
-Model: coq/theories/C03_Model.v, C03_Model_PM.v; theorems: C03_Props.v.
+Model: coq/theories/C03_Model.v, C03_Model_PM.v, C03_Model_Seq.v; theorems: C03_Props.v.
 """
 import itertools
 import os
@@ -48,7 +55,7 @@ from common import Err, catch, zlit, qlit, zl, zll, optz
 
 PROPERTY = 'C03'
 PROPS_FILE = 'C03_Props.v'
-COQ_IMPORTS = ['C03_Model', 'C03_Model_PM']
+COQ_IMPORTS = ['C03_Model', 'C03_Model_PM', 'C03_Model_Seq']
 TOL = F(1, 10**8)
 ORACLE_PREMISES = [
     'float64 / numpy arithmetic (dot, cross, sqrt of column norms, division) stays within 1e-8 relative of the exact rational model',
@@ -87,15 +94,27 @@ MODELLED = ('image.py _standardize_slice_indices, _standardize_row_column_indice
             'parametric maps through pm_tiled_matrix / run_pm_tiled (preserved -> the source\'s origin and size; explicit '
             'positions in another order / of a rectangular part: lexsort-first origin, lexsort-last tile + tile size - 1). *_rd cases (object written to a file '
             'and opened again, eagerly or with lazy_frame_retrieval, from bytes / stream / path) are compared '
-            'against the reader-free model term: HOW a stored object is opened is NOT an input of the model')
+            'against the reader-free model term: HOW a stored object is opened is NOT an input of the model. '
+            '*_seq cases (a history of requests to ONE object): C03_Model_Seq.v serve / serve_all - serving a request '
+            'is a state transition (state = the stored record, unchanged) and the answers are those of '
+            'get_volume_geometry / get_volume above, request by request (tiled_seq: a list of run_tiled terms); '
+            'explicit rtol / atol, per-segment assembly and copies of the object (deepcopy, pickle, from_dataset) '
+            'between requests are NOT inputs of the model')
 STRATA = ['std_slice', 'std_slice_err', 'std_rc', 'std_rc_err', 'vol', 'vol_sub', 'vol_sub_err', 'src', 'src_irregular',
           'src_img',
           'tiled', 'tiled_err', 'pyramid', 'pyramid_err', 'pyr_multi', 'pyr_multi_err', 'tiled_place',
           'tiled_place_err', 'vol_hist', 'vol_mem', 'vol_mem_err', 'src_mem', 'tiled_mem', 'tiled_place_mem',
-          'vol_rd', 'src_rd', 'src_img_rd', 'tiled_rd', 'pm', 'pm_err', 'pm_tiled']
+          'vol_rd', 'src_rd', 'src_img_rd', 'tiled_rd', 'pm', 'pm_err', 'pm_tiled',
+          'vol_seq', 'src_seq', 'src_img_seq', 'pm_seq', 'tiled_seq']
 NOT_EXECUTED = ['several focal planes in tiled images',
                 'pyramids with sop_instance_uids / segment channels (rank 4) in the several-sources modes',
-                'get_volume with rtol/atol other than the defaults',
+                'get_volume with rtol/atol other than the defaults on stacks whose acceptance depends on them (inside '
+                'histories rtol=0.01 / atol=1e-3 are passed explicitly, on regular stacks only)',
+                'histories: pickle / from_dataset copies of LAZILY opened objects (not supported by the library: '
+                'the file reader cannot be pickled and holds no PixelData); deep copies of lazily opened objects '
+                'after the original was deleted (the copy reads through a weak reference to the original); '
+                'histories on irregular stacks and on plain images with missing frames and no recorded spacing; '
+                'requests from several threads',
                 'JPEG 2000 (no codec installed); JPEG-LS frames with fewer than 5 rows / columns (pyjpegls cannot '
                 'encode them); workers != 0 (frames encoded in a process pool); pixel arrays of dtypes the '
                 'constructor refuses (signed / 32-64 bit integers, big-endian)',
@@ -143,7 +162,16 @@ RULE = ('std_*: exhaustive small cube of (start, end, n, as_indices) in all argu
         'tiles in another order | a rectangular part of the tile grid containing the top left tile, any order - '
         'each at least once) x region x reader; observed: geometry, get_volume(region), declared '
         'TotalPixelMatrixRows / Columns, get_total_pixel_matrix(). '
-        'non-trivial = more than one slice/voxel or a refusal; distinct by case hash')
+        'vol_seq / src_seq / src_img_seq / pm_seq / tiled_seq: a history of 2-6 requests to ONE object - first '
+        'request (range of slices inside the stack | 0:b | a: given by a negative number | any documented region | '
+        'undocumented region | geometry | whole volume; every kind of object x (as constructed | eager file | lazy '
+        'file) at least once with a range of slices FIRST and the whole volume / the geometry later) x later '
+        'requests of the same forms x "chunks" (the stack read in consecutive ranges, then geometry / whole '
+        'volume) x per request allow_missing_positions, rtol / atol given explicitly, 1-based / 0-based / negative '
+        '/ None arguments, per-segment assembly, deepcopy / pickle / from_dataset copy of the object before the '
+        'request x Segmentation / Image interface; observed: the whole volume of a twin object that was never '
+        'asked anything + every answer; '
+        'non-trivial = more than one slice/voxel or a refusal (histories: more than one request); distinct by case hash')
 EXHAUSTIVE = {'quick': False, 'thorough': False}
 
 # ---------------------------------------------------------------------------------------------
@@ -986,6 +1014,182 @@ def _pm_tiled_case(rng, mode=None):
     return c
 
 
+# ---------------------------------------------------------------------------------------------
+# histories: several requests, one after the other, to ONE opened object
+# ---------------------------------------------------------------------------------------------
+_SEQ_KEYS = ('ss', 'se', 'rs', 're', 'cs', 'ce')
+_SEQ_FIRST = ['slices', 'slices', 'slices', 'tail', 'head', 'region', 'geom', 'full', 'bad']
+
+
+def _seq_step(rng, what, n0, R, C, api, first, lazy):
+    """one request: get_volume_geometry() ('geom') or get_volume(...) ('vol') with a range of slices only
+    ('slices' inside the stack, 'head' 0:b, 'tail' a: given by a negative number), any documented region
+    ('region'), an undocumented / empty one ('bad') or no argument ('full'); allow_missing_positions, explicit
+    tolerances (that do not change the outcome on the regular stacks drawn), the volume assembled per segment,
+    and what happened to the object since the previous request (deep copy, pickle round trip, from_dataset
+    copy - the request then goes to the copy)"""
+    st = {'op': 'geom' if what == 'geom' else 'vol', 'as_idx': rng.random() < 0.5, 'am': rng.random() < 0.85,
+          'tol': rng.choice([None, None, None, None, 'rtol', 'atol']), 'perseg': False, 'via': None}
+    st.update({k: None for k in _SEQ_KEYS})
+    if what in ('slices', 'head', 'tail') and n0 > 1:
+        if what == 'head':
+            a, b = 0, rng.randint(1, n0 - 1)
+        elif what == 'tail':
+            a, b = rng.randint(1, n0 - 1), n0
+        else:
+            a = rng.randrange(n0)
+            b = rng.randint(a + 1, n0 if a > 0 else n0 - 1)
+        st['ss'] = _enc_bound(rng, a, n0, st['as_idx'], False)
+        st['se'] = _enc_bound(rng, b, n0, st['as_idx'], True)
+        if what == 'tail' and rng.random() < 0.7:
+            st['ss'], st['se'] = a - n0, None
+    elif what == 'region':
+        st.update(_sub_args(rng, n0, R, C))
+    elif what == 'bad':
+        st.update(_sub_args(rng, n0, R, C, bad=True))
+    if st['op'] == 'vol' and api == 'seg' and rng.random() < 0.15:
+        st['perseg'] = True
+    if not first and rng.random() < 0.3:
+        st['via'] = rng.choice(['deepcopy'] if lazy else ['deepcopy', 'pickle', 'copy'])
+    return st
+
+
+def _seq_steps(rng, n0, R, C, api, lazy, first=None, pattern=None):
+    """a history of 2-6 requests; pattern 'chunks': the stack is read in consecutive ranges of slices (as one does
+    with a large image), then asked for its geometry / the whole volume"""
+    pattern = pattern or rng.choice(['free', 'free', 'free', 'chunks'])
+    steps = []
+    if pattern == 'chunks' and n0 > 1:
+        w = rng.randint(1, max(1, n0 // 2))
+        ai = rng.random() < 0.5
+        for a in range(0, n0, w):
+            st = _seq_step(rng, 'full', n0, R, C, api, a == 0, lazy)
+            b = min(n0, a + w)
+            st.update({'as_idx': ai, 'ss': a if ai else a + 1, 'se': b if ai else b + 1, 'am': True})
+            steps.append(st)
+        steps = steps[:4]
+        for what in rng.sample(['geom', 'full', 'slices'], rng.randint(1, 2)):
+            steps.append(_seq_step(rng, what, n0, R, C, api, False, lazy))
+        return steps
+    for i in range(rng.choice([2, 3, 3, 4, 5])):
+        what = (first or rng.choice(_SEQ_FIRST)) if i == 0 else \
+            rng.choice(['slices', 'head', 'tail', 'region', 'geom', 'geom', 'full', 'full', 'bad'])
+        steps.append(_seq_step(rng, what, n0, R, C, api, i == 0, lazy))
+    if first and not any(s['op'] == 'geom' or all(s[k] is None for k in _SEQ_KEYS) for s in steps[1:]):
+        steps.append(_seq_step(rng, rng.choice(['geom', 'full']), n0, R, C, api, False, lazy))
+    return steps
+
+
+def _seq_open(rng, mode=None):
+    """how the object that serves the history came about: as constructed (None) or written to a file and opened
+    again, eagerly or with lazy frame retrieval"""
+    mode = mode or rng.choice(['memory', 'memory', 'eager', 'lazy'])
+    return None if mode == 'memory' else _rd(rng, lazy=mode == 'lazy')
+
+
+def _seq_stack_case(rng, base, first=None, mode=None, api=None, pattern=None):
+    """A history of requests to ONE stacked (PATIENT coordinate system) object: a segmentation of a volume
+    ('vol'), a segmentation aligned with a source stack ('src'), a plain multi-frame CT image ('img'), a
+    parametric map ('pm')."""
+    if base == 'vol':
+        c = _vol_case(rng, 'vol_seq')
+        c['S'] = rng.choice([3, 4, 5, 6])
+        c['arr'] = _label_array(rng, c['S'], c['R'], c['C'], c['nseg'])
+        if api:
+            c['api'] = api
+            if api == 'image' and c['typ'] != 'LABELMAP':
+                c['nseg'] = 1
+                c['arr'] = _label_array(rng, c['S'], c['R'], c['C'], 1)
+        order = None
+    elif base == 'src':
+        while True:
+            c = _src_case(rng, False)
+            if c['S'] >= 3:
+                break
+        c['kind'] = 'src_seq'
+        order = c['order']
+    elif base == 'img':
+        while True:
+            c = _img_case(rng, False)
+            if c['S'] >= 3:
+                break
+        c['kind'] = 'src_img_seq'
+        if c['omit']:
+            c['src_has_sbs'] = True      # (without a recorded spacing the extent of a stack with gaps is open)
+        order = c['order']
+    else:
+        while True:
+            c = _pm_case(rng)
+            lo = min(c['ms'])
+            if c['S'] >= 3 and sorted(c['ms']) == list(range(lo, lo + c['S'])):
+                break
+        c['kind'] = 'pm_seq'
+        c['rd'] = None
+        order = c['order_idx'] = [m - lo for m in c['ms']]
+    c['file_rt'] = False
+    c.update({k: None for k in _SEQ_KEYS})
+    c['as_idx'] = False
+    c['open'] = _seq_open(rng, mode)
+    if c['open'] is not None and base in ('vol', 'src'):
+        c['ts'] = rng.choice(['explicit', 'explicit', 'implicit'])
+    n0 = _stored_extent(c['arr'], c['omit'], order)
+    lazy = bool(c['open'] and c['open']['lazy'])
+    c['steps'] = _seq_steps(rng, n0, c['R'], c['C'], c['api'], lazy, first, pattern)
+    return c
+
+
+def _tiled_args(rng, R, C, bad):
+    """region arguments of one get_volume request to a tiled image (the stratification of _tiled_case)"""
+    as_idx = rng.random() < 0.5
+    a = {k: None for k in _SEQ_KEYS}
+    a['as_idx'] = as_idx
+    if not bad:
+        for name, n in (('r', R), ('c', C)):
+            if rng.random() < 0.3:
+                lo, hi = 0, n
+            else:
+                lo = rng.randrange(n)
+                hi = rng.randint(lo + 1, n)
+            a[name + 's'] = _enc_bound(rng, lo, n, as_idx, False)
+            a[name + 'e'] = _enc_bound(rng, hi, n, as_idx, True)
+        a['ss'] = _enc_bound(rng, 0, 1, as_idx, False)
+        a['se'] = _enc_bound(rng, 1, 1, as_idx, True)
+        return a
+    what = rng.choice(['r', 'c', 's'])
+    if what == 's':
+        a['ss'], a['se'] = rng.choice([(2, None), (0, None), (None, 3), (None, -2), (1, 1), (None, 0)]) \
+            if not as_idx else rng.choice([(1, None), (None, 2), (None, -2), (0, 0)])
+    else:
+        n = R if what == 'r' else C
+        if rng.random() < 0.5:
+            a[what + 's'] = rng.choice([n, n + 1, n + 3]) if as_idx else rng.choice([0, n + 1, n + 2])
+        else:
+            a[what + 'e'] = rng.choice([n + 1, n + 2]) if as_idx else rng.choice([n + 2, n + 3, 0, 0])
+    return a
+
+
+def _seq_tiled_case(rng, mode=None):
+    """A history of region requests (each followed or preceded by a request for the geometry) to ONE tiled
+    (SLIDE coordinate system) segmentation / slide image."""
+    c = _tiled_case(rng, False)
+    c['kind'] = 'tiled_seq'
+    c['open'] = _seq_open(rng, mode) if c['api'] == 'seg' else None
+    if c['open'] is not None:
+        c['ts'] = rng.choice(['explicit', 'implicit'])
+    lazy = bool(c['open'] and c['open']['lazy'])
+    steps = []
+    for i in range(rng.choice([2, 3, 3, 4])):
+        st = _tiled_args(rng, c['R'], c['C'], bad=rng.random() < 0.15)
+        st['geom_first'] = rng.random() < 0.5
+        st['via'] = None
+        if i > 0 and rng.random() < 0.3:
+            st['via'] = rng.choice(['deepcopy'] if lazy else ['deepcopy', 'pickle', 'copy'])
+        steps.append(st)
+    c['steps'] = steps
+    c.update({k: None for k in _SEQ_KEYS})
+    return c
+
+
 def _closest_orientation(d):
     """patient orientation string of a volume with (unambiguous) axis directions d: the letter of the patient
     axis every volume axis is closest to (x -> L, y -> P, z -> H; R, A, F for the opposite directions)"""
@@ -1192,6 +1396,27 @@ def gen_cases(rng, tier):
         cases.append(c)
     for _ in range(nv // 4):
         cases.append(_pm_tiled_case(rng))
+    # ---- histories: several requests to ONE object ----------------------------------------------------------
+    # a range of slices as the very first request, then the geometry / the whole volume: every kind of object,
+    # every way it came about
+    for base, mode, api in (('vol', 'memory', 'seg'), ('vol', 'eager', 'seg'), ('vol', 'lazy', 'seg'),
+                            ('vol', 'memory', 'image'), ('vol', 'lazy', 'image'), ('src', 'memory', None),
+                            ('src', 'eager', None), ('img', 'memory', None), ('img', 'lazy', None),
+                            ('pm', 'memory', None), ('pm', 'eager', None)):
+        cases.append(_seq_stack_case(rng, base, first=rng.choice(['slices', 'head', 'tail']), mode=mode, api=api,
+                                     pattern='free'))
+    for base in ('vol', 'src', 'img', 'pm'):
+        cases.append(_seq_stack_case(rng, base, pattern='chunks'))
+    for _ in range(nv // 4):
+        cases.append(_seq_stack_case(rng, 'vol'))
+    for _ in range(nv // 10):
+        cases.append(_seq_stack_case(rng, 'src'))
+        cases.append(_seq_stack_case(rng, 'img'))
+        cases.append(_seq_stack_case(rng, 'pm'))
+    for mode in ('memory', 'eager', 'lazy'):
+        cases.append(_seq_tiled_case(rng, mode))
+    for _ in range(nv // 10):
+        cases.append(_seq_tiled_case(rng))
     return cases
 
 
@@ -1556,6 +1781,144 @@ def _run_rd(c):
         _cleanup(tmp)
 
 
+def _stored_file(ds, rd, reader, tmp):
+    """like _reopen, but returns a function that opens the stored object (again and again)"""
+    import io
+    import pathlib
+    import tempfile
+    b = io.BytesIO()
+    ds.save_as(b)
+    data = b.getvalue()
+    path = None
+    if rd['fp'] in ('path', 'pathlike'):
+        fd, path = tempfile.mkstemp(prefix='c03_', suffix='.dcm')
+        with os.fdopen(fd, 'wb') as fh:
+            fh.write(data)
+        tmp.append(path)
+
+    def open_():
+        fp = data if rd['fp'] == 'bytes' else io.BytesIO(data) if rd['fp'] == 'stream' else \
+            path if rd['fp'] == 'path' else pathlib.Path(path)
+        return reader(fp, lazy_frame_retrieval=rd['lazy'])
+    return open_
+
+
+def _seq_objects(c, ds, tmp):
+    """(the object that serves the history, a twin of it that has never been asked anything)"""
+    import copy
+    import highdicom as hd
+    if c['open'] is not None:
+        open_ = _stored_file(ds, c['open'], hd.imread if c['api'] == 'image' else hd.seg.segread, tmp)
+        return open_(), open_()
+    if c['api'] == 'image':
+        return hd.Image.from_dataset(ds, copy=True), hd.Image.from_dataset(ds, copy=True)
+    return ds, copy.deepcopy(ds)       # the segmentation as constructed (never written)
+
+
+def _seq_via(obj, via, api):
+    import copy
+    import pickle
+    import highdicom as hd
+    if via == 'deepcopy':
+        return copy.deepcopy(obj)
+    if via == 'pickle':
+        return pickle.loads(pickle.dumps(obj))
+    if via == 'copy':
+        return (hd.Image if api == 'image' else hd.seg.Segmentation).from_dataset(obj, copy=True)
+    return obj
+
+
+def _seq_tol(st):
+    return {'rtol': {'rtol': 0.01}, 'atol': {'atol': 1e-3}}.get(st.get('tol'), {})
+
+
+def _run_seq(c):
+    """'vol_seq' / 'src_seq' / 'src_img_seq' / 'pm_seq': [full volume of a twin object that was never asked
+    anything before, answer to request 1, answer to request 2, ...] - all requests go to ONE object (or to the
+    copy made of it in between)"""
+    import numpy as np
+    tmp = []
+    try:
+        if c['kind'] == 'pm_seq':
+            src = _pm_sources(c)
+            arr = _mem_cast(np.array(c['arr']).reshape(c['S'], c['R'], c['C']), {'mem': {'dt': c['dt']}})
+            kw = {'transfer_syntax_uid': _TS[c['ts']]}
+            import highdicom as hd
+            if c['u_pos'] is not None:
+                kw['plane_positions'] = [hd.PlanePositionSequence('PATIENT', [_f(x) for x in p]) for p in c['u_pos']]
+            if c['u_or'] is not None:
+                kw['plane_orientation'] = hd.PlaneOrientationSequence(
+                    'PATIENT', [_f(x) for x in c['u_or'][0]] + [_f(x) for x in c['u_or'][1]])
+            if c['u_pm'] is not None:
+                kw['pixel_measures'] = hd.PixelMeasuresSequence(
+                    pixel_spacing=(_f(c['u_pm'][0]), _f(c['u_pm'][1])), slice_thickness=1.0,
+                    spacing_between_slices=None if c['u_pm'][2] is None else _f(c['u_pm'][2]))
+            ds = _pm_make(src, arr, **kw)
+        else:
+            ds = _build_seg(c)
+        obj, twin = _seq_objects(c, ds, tmp)
+        binar = c['api'] == 'image' and c['typ'] != 'LABELMAP'
+        out = [_catch_io(lambda: _vol_out(_obj_get_vol(dict(c, allow_missing=True), twin, {}), binar))]
+        keep = []      # (the copy of a lazily opened image reads its frames through a weak reference to the
+        #                  image it was copied from: the caller keeps that one alive)
+        for st in c['steps']:
+            keep.append(obj)
+            obj = _seq_via(obj, st['via'], c['api'])
+            if st['op'] == 'geom':
+                out.append(catch(lambda: _geom_out(obj.get_volume_geometry(
+                    allow_missing_positions=st['am'], **_seq_tol(st)))))
+                continue
+            kw = dict(_kw(st), **_seq_tol(st))
+            if c['api'] == 'seg':
+                kw['allow_missing_positions'] = st['am']
+            out.append(_catch_io(lambda: _vol_out(
+                _obj_get_vol(dict(c, allow_missing=st['am']), obj, kw, per_segment=st['perseg']), binar)))
+        return out
+    finally:
+        _cleanup(tmp)
+
+
+def _run_seq_tiled(c):
+    """'tiled_seq': per request [geometry, get_volume(region)] of ONE tiled object"""
+    import numpy as np
+    import highdicom as hd
+    import synth
+    tmp = []
+    try:
+        sm = _build_sm(c)
+        if c['api'] == 'seg':
+            mask = np.array(c['M'], np.uint8).reshape(1, c['R'], c['C'])
+            mkw = {'transfer_syntax_uid': _TS[c['ts']]} if c.get('ts') else {}
+            obj = synth.make_seg([sm], mask, c['typ'], [1], tile_pixel_array=True, omit_empty_frames=c['omit'],
+                                 tile_size=(c['th'], c['tw']), **mkw,
+                                 dimension_organization_type='TILED_FULL' if (c['tiled_full'] and not c['omit'])
+                                 else 'TILED_SPARSE')
+            if c['open'] is not None:
+                obj = _stored_file(obj, c['open'], hd.seg.segread, tmp)()
+        else:
+            obj = hd.Image.from_dataset(sm, copy=True)
+        out = []
+        keep = []
+        for st in c['steps']:
+            keep.append(obj)
+            obj = _seq_via(obj, st['via'], c['api'])
+
+            def vol():
+                if c['api'] == 'seg':
+                    return _vol_out(obj.get_volume(combine_segments=True, **_kw(st)))
+                v = obj.get_volume(**_kw(st))
+                return [list(v.spatial_shape), v.affine[:3].tolist(), None]
+            if st['geom_first']:
+                g = _geom_out(obj.get_volume_geometry())
+                out.append([g, _catch_io(vol)])
+            else:
+                v = _catch_io(vol)
+                out.append([_geom_out(obj.get_volume_geometry()), v])
+        return out
+    finally:
+        _cleanup(tmp)
+
+
 def _pm_make(src, arr, **kw):
     import highdicom as hd
     from pydicom.sr.codedict import codes
@@ -1821,6 +2184,10 @@ def run_impl(c):
         return _run_place(c)
     if k in ('vol_rd', 'src_rd', 'src_img_rd'):
         return _run_rd(c)
+    if k in ('vol_seq', 'src_seq', 'src_img_seq', 'pm_seq'):
+        return _run_seq(c)
+    if k == 'tiled_seq':
+        return _run_seq_tiled(c)
     if k in ('pm', 'pm_err'):
         return _run_pm(c)
     if k == 'pm_tiled':
@@ -1963,6 +2330,20 @@ def _optq(x):
     return 'None' if x is None else f'(Some {qlit(F(x))})'
 
 
+def _pm_stored_term(c):
+    s = c['src']
+
+    def v3l(ps):
+        return '[' + '; '.join(_v3(p) for p in ps) + ']'
+    u_ps = 'None' if c['u_pos'] is None else f"(Some {v3l(c['u_pos'])})"
+    u_or = 'None' if c['u_or'] is None else f"(Some ({_v3(c['u_or'][0])}, {_v3(c['u_or'][1])}))"
+    u_pm = 'None' if c['u_pm'] is None else \
+        f"(Some ({qlit(F(c['u_pm'][0]))}, {qlit(F(c['u_pm'][1]))}, {_optq(c['u_pm'][2])}))"
+    return (f"(pm_stored {v3l(s['positions'])} {_v3(s['rowcos'])} {_v3(s['colcos'])} {qlit(F(s['spr']))} "
+            f"{qlit(F(s['spc']))} {_optq(s['sbs'])} {u_ps} {u_or} {u_pm} {zlit(c['R'])} {zlit(c['C'])} "
+            f"{_planes(c['arr'])})")
+
+
 def coq_term(c):
     k = c['kind']
     if k in ('std_slice', 'std_slice_err'):
@@ -1970,6 +2351,31 @@ def coq_term(c):
     if k in ('std_rc', 'std_rc_err'):
         return (f"(run_std_rc {optz(c['rs'])} {optz(c['re'])} {optz(c['cs'])} {optz(c['ce'])} "
                 f"{zlit(c['rows'])} {zlit(c['cols'])} {_b(c['ai'])} {_b(c['oi'])})")
+    if k == 'tiled_seq':
+        # one object, no state in the model: the answers are those of the single requests
+        return '(VL [' + '; '.join(
+            coq_term(dict(c, kind='tiled', **{x: st[x] for x in _SEQ_KEYS + ('as_idx',)})) for st in c['steps']) + '])'
+    if k in ('vol_seq', 'src_seq', 'src_img_seq', 'pm_seq'):
+        reqs = '[' + '; '.join(
+            f"(ReqGeom {_b(st['am'])})" if st['op'] == 'geom' else f"(ReqVol {_b(st['am'])} {_args(st)})"
+            for st in c['steps']) + ']'
+        if k == 'pm_seq':
+            return f"(run_pm_seq {_pm_stored_term(c)} {reqs})"
+        if k == 'vol_seq':
+            d, sp = c['d'], c['sp']
+            st = (f"(seg_from_volume {_v3(c['pos'])} {_v3(d[0])} {_v3(d[1])} {_v3(d[2])} "
+                  f"{qlit(F(sp[0]))} {qlit(F(sp[1]))} {qlit(F(sp[2]))} {zlit(c['R'])} {zlit(c['C'])} "
+                  f"{_planes(c['arr'])} {_b(c['omit'])})")
+        elif k == 'src_img_seq':
+            planes = '[' + '; '.join(f"({_v3(p)}, {zll(a)})" for p, a in _img_kept(c)) + ']'
+            st = (f"(Stored {_v3(c['rowcos'])} {_v3(c['colcos'])} {qlit(F(c['spr']))} {qlit(F(c['spc']))} "
+                  f"{_optq(c['sbs'] if c['src_has_sbs'] else None)} {zlit(c['R'])} {zlit(c['C'])} {planes})")
+        else:
+            ps = '[' + '; '.join(_v3(p) for p in c['positions']) + ']'
+            st = (f"(seg_from_sources {ps} {_v3(c['rowcos'])} {_v3(c['colcos'])} {qlit(F(c['spr']))} "
+                  f"{qlit(F(c['spc']))} {_optq(c['sbs'] if c['src_has_sbs'] else None)} {zlit(c['R'])} "
+                  f"{zlit(c['C'])} {_planes(c['arr'])} {_b(c['omit'])})")
+        return f"(run_stored_seq {st} {reqs})"
     k = {'tiled_mem': 'tiled', 'tiled_place_mem': 'tiled_place', 'tiled_rd': 'tiled'}.get(k, k)
     if k == 'pm_tiled':
         pos = [c['origin'][0], c['origin'][1], c.get('srcz') or '0']
@@ -2344,9 +2750,88 @@ def _oracle_pm_tiled(c, out):
     return oracle(dict(c, kind='tiled', R=Rd, C=Cd, M=padded[:Rd, :Cd].tolist()), [geo, vol])
 
 
+def _seq_describe(c, i):
+    """the history up to and including request i, in words"""
+    def one(st):
+        if st.get('op') == 'geom':
+            w = 'geometry'
+        else:
+            a = {k: st[k] for k in _SEQ_KEYS if st.get(k) is not None}
+            w = ('get_volume(' + ', '.join(f'{k}={v}' for k, v in a.items()) +
+                 (', as_indices' if a and st['as_idx'] else '') + ')')
+        extra = [x for x in (st.get('via'), st.get('tol'), None if st.get('am', True) else 'strict',
+                             'per segment' if st.get('perseg') else None) if x]
+        return w + (' [' + ', '.join(extra) + ']' if extra else '')
+    return ' -> '.join(one(st) for st in c['steps'][:i + 1])
+
+
+def _oracle_seq(c, out):
+    """A history of requests to one stacked object.  The volume a twin object returns that was never asked
+    anything is judged against the input by the standing oracle of the kind (every voxel where the case
+    description put it, extent, handedness); every answer of the history must then be what the documentation
+    says about THAT request alone: the geometry is the geometry of this volume, get_volume() is this volume,
+    get_volume(region) the documented part of it placed at the position of its first voxel - whatever the
+    object was asked before."""
+    if not isinstance(out, list) or len(out) != len(c['steps']) + 1:
+        return f'unexpected output {out}'
+    ref, answers = out[0], out[1:]
+    base = dict(c, kind='vol' if c['kind'] == 'vol_seq' else 'src', allow_missing=True, as_idx=False,
+                **{k: None for k in _SEQ_KEYS})
+    if c['kind'] == 'pm_seq':
+        base['order'] = c['order_idx']
+    msg = oracle(base, [ref if isinstance(ref, Err) else [ref[0], ref[1]], ref, ref])
+    if msg is not None:
+        return 'object that was never asked anything before: ' + msg
+    if isinstance(ref, Err):
+        return None
+    order = base.get('order') or list(range(c['S']))
+    ne = sorted(order[i] for i, pl in enumerate(c['arr']) if any(any(r) for r in pl))
+    interior_gap = c['omit'] and ne and any(i not in ne for i in range(ne[0], ne[-1] + 1))
+    n0 = ref[0][0]
+    for i, (st, a) in enumerate(zip(c['steps'], answers)):
+        where = f'request {i + 1} of the history {_seq_describe(c, i)}: '
+        refused = a is None or isinstance(a, Err)
+        if refused and not st['am'] and interior_gap:
+            continue          # the caller asked for a refusal of missing positions
+        if st['op'] == 'geom':
+            if refused:
+                return where + f'get_volume_geometry gives {a} although the image is a regular volume'
+            if a[0] != ref[0] or not _aff_close(a[1], ref[1]):
+                return where + (f'reported geometry (shape {a[0]}, origin {[r[3] for r in a[1]]}) is not that of '
+                                f'the volume the image holds (shape {ref[0]}, origin {[r[3] for r in ref[1]]})')
+            continue
+        if all(st[k] is None for k in _SEQ_KEYS):
+            if refused:
+                return where + f'get_volume() refused: {a}'
+            if a[0] != ref[0] or not _aff_close(a[1], ref[1]) or a[2] != ref[2]:
+                what = 'shape' if a[0] != ref[0] else 'affine' if not _aff_close(a[1], ref[1]) else 'voxel values'
+                return where + (f'get_volume() differs in {what} from the volume of the same image asked for the '
+                                f'first time (shape {a[0]} / {ref[0]}, origin {[r[3] for r in a[1]]} / '
+                                f'{[r[3] for r in ref[1]]})')
+            continue
+        msg = _check_sub(dict(c, **{k: st[k] for k in _SEQ_KEYS + ('as_idx',)}), ref, a, n0)
+        if msg is not None:
+            return where + msg
+    return None
+
+
+def _oracle_seq_tiled(c, out):
+    if not isinstance(out, list) or len(out) != len(c['steps']):
+        return f'unexpected output {out}'
+    for i, (st, a) in enumerate(zip(c['steps'], out)):
+        msg = oracle(dict(c, kind='tiled', **{k: st[k] for k in _SEQ_KEYS + ('as_idx',)}), a)
+        if msg is not None:
+            return f'request {i + 1} of the history {_seq_describe(c, i)}: ' + msg
+    return None
+
+
 def oracle(c, out):
     import numpy as np
     k = c['kind']
+    if k in ('vol_seq', 'src_seq', 'src_img_seq', 'pm_seq'):
+        return _oracle_seq(c, out)
+    if k == 'tiled_seq':
+        return _oracle_seq_tiled(c, out)
     if k in ('std_slice', 'std_slice_err'):
         r = _doc_range(c['ss'], c['se'], c['n'], c['ai'])
         if r != 'out' and r[1] - r[0] >= 1:
@@ -2555,6 +3040,8 @@ def nontrivial(c, out):
     k = c['kind']
     if k.startswith('std'):
         return True
+    if k.endswith('_seq'):
+        return len(c['steps']) > 1
     if k.startswith('vol') or k.startswith('src'):
         return c['S'] > 1 and any(any(any(r) for r in pl) for pl in c['arr'])
     if k.startswith('tiled_place'):
@@ -2566,6 +3053,35 @@ def nontrivial(c, out):
 
 def shrink(c):
     k = c['kind']
+    if k.endswith('_seq'):
+        steps = c['steps']
+        if len(steps) > 1:
+            for i in range(len(steps) - 1, -1, -1):
+                rest = steps[:i] + steps[i + 1:]
+                yield dict(c, steps=[dict(rest[0], via=None)] + rest[1:])
+        for i, st in enumerate(steps):
+            for key, plain in (('via', None), ('tol', None), ('perseg', False), ('am', True)):
+                if st.get(key, plain) != plain:
+                    yield dict(c, steps=steps[:i] + [dict(st, **{key: plain})] + steps[i + 1:])
+            for key in _SEQ_KEYS[2:]:
+                if st.get(key) is not None:
+                    yield dict(c, steps=steps[:i] + [dict(st, **{key: None})] + steps[i + 1:])
+        if c.get('open') is not None:
+            if c['open']['lazy']:
+                yield dict(c, open=dict(c['open'], lazy=False))
+            else:
+                yield dict(c, open=None)
+        if c.get('chan4d'):
+            yield dict(c, chan4d=False)
+        if k in ('vol_seq', 'src_seq', 'src_img_seq'):
+            for s_, pl in enumerate(c['arr']):
+                for r, row in enumerate(pl):
+                    for cc, v in enumerate(row):
+                        if v > 1:
+                            arr = [[list(rw) for rw in p] for p in c['arr']]
+                            arr[s_][r][cc] = 1
+                            yield dict(c, arr=arr)
+        return
     if c.get('rd'):
         if c['rd']['fp'] != 'bytes':
             yield dict(c, rd=dict(c['rd'], fp='bytes'))
